@@ -17,6 +17,13 @@ Bounded exhaustive exploration of calc_rdm_unbalanced / calc_one_similarity:
             pattern of repeated values (ints / strings) and distinct permuted values; the result must
             have one condition per observation labelled 0..n-1, equal the reference / calc_rdm, and
             leave the caller's descriptor alone
+  seq       every ordered pair of calls from a menu of 10 (8 calc_rdm_unbalanced configurations: methods x
+            weighting x fold / no fold x descriptor None / 'cond', and 2 calc_rdm calls) on ONE Dataset
+            object and ONE precision array: the second result must be bit-identical to the same call on a
+            fresh Dataset (`depends-on-earlier-call`)
+  scale     the labelings (n <= 4) and balanced designs with the measurements multiplied by 1e-5 and 1e4,
+            with condition / fold descriptors that are six-digit ints (100000+k) and floats
+            1696300000.0+0.5k; judged by the same oracles with tolerances relative to the data scale
   oob_probe the configuration class 'precision + missing channel' is executed in a CHILD process
             only (the compiled kernel reads past a heap buffer there - known finding); everywhere
             else that class is skipped and counted under `not_explored_because_known`
@@ -27,7 +34,11 @@ Each executed case is judged by
       the identity  d(a,b) = h(a,a) + h(b,b) - 2 h(a,b)  with the full computation;
   (3) calc_rdm on the configurations where theory demands equality;
   (4) a channel that is missing everywhere == that channel deleted (precision sub-block);
-  (5) Fortran order / int64 input == C order / float64 input.
+  (5) Fortran order / int64 input == C order / float64 input;
+  (6) after EVERY library call (calc_rdm_unbalanced, calc_one_similarity, calc_rdm) the caller's Dataset
+      (measurements incl. identity, dtype, strides; every descriptor dict incl. key order, container and
+      element types) and every ndarray argument (precision, fold codes) are bit-identical
+      (`modifies-argument:<arg>`).
 """
 import json
 import math
@@ -41,7 +52,7 @@ import numpy as np
 from mc import combi
 from mc import runner as _runner
 from mc.ref import c15_ref as ref
-from mc.util import close, reldev, rng_for, spd
+from mc.util import fingerprint, rng_for, spd
 
 PROPERTY = 'C15'
 LEVEL = 'exploration'
@@ -76,6 +87,8 @@ ASSUMPTIONS = [
     'counts, crossnobis / poisson_cv with an explicit fold descriptor on fold-balanced designs (every '
     'condition has the same number of observations in every fold; exactly one for poisson_cv)',
     'the precision matrix is symmetric positive definite',
+    'a library call owns none of its arguments: Dataset, precision and fold-code arrays must be bit-identical '
+    'afterwards, and a result may not depend on earlier calls on the same objects',
     'real values are represented by fixed fills derived from VERIF_SEED (generic floats >= 0.1, signed '
     'normals, integer values); the structure (labelings, masks, folds, orders) never depends on the seed',
     'the configuration class precision + missing channel (mahalanobis / crossnobis) is known to read past '
@@ -85,7 +98,13 @@ ASSUMPTIONS = [
 TOL = 1e-9
 TOL_INV = 1e-12
 TOLERANCES = {'value vs reference / calc_rdm': TOL, 'dtype / layout invariance': TOL_INV,
-              'helper identity': 1e-8}
+              'helper identity': 1e-8,
+              'rule': '|a-b| <= tol * max(unit, |a|, |b|); unit = c^2 for data multiplied by c (euclidean, '
+                      'mahalanobis, crossnobis), 1 for correlation, min(1, c^2) for poisson kernels; c = 1 '
+                      'everywhere outside the scale family',
+              'poisson vs calc_rdm': 'additionally 64 ulp of the largest term |u log u| of calc_rdm\'s formula '
+                                     '(its rounding error does not shrink with the dissimilarity)',
+              'arguments / sequences': 'bit-identical'}
 BOUNDS = {
     'quick': {'n_obs': '1..5, every set partition (75)', 'n_channel': [2, 3],
               'nan_masks': 'every subset of <=2 cells + every whole channel + every whole observation',
@@ -98,6 +117,10 @@ BOUNDS = {
                                       'every partition of n in 2..4 as its value pattern (ints, strings), reversed and '
                                       'rotated distinct values; 16 method configurations + crossnobis with folds; '
                                       "complete data and two single-cell masks for 'index'",
+              'sequences': 'n in 2..5, every partition, occurrence folds, P=3: every ordered pair of a 10-call menu '
+                           '(complete data; one NaN cell for n<=4, without the two precision calls)',
+              'scales': 'n in 1..4, every partition, P=3: data x 1e-5 / x 1e4, labels and folds 100000+k and '
+                        '1696300000.0+0.5k (alone and with x 1e4); 5 masks; all method configurations; 5 balanced designs',
               'fills': 'generic float fill + integer fill (complete data)',
               'layout/dtype variants': 'F order on every third case (rotating through configurations and '
                                        'masks), int64 C/F + F on every integer-fill case'},
@@ -105,6 +128,7 @@ BOUNDS = {
                  'n_channel': '2, 3 (+4 for n<=4)',
                  'fold_partitions': 'n<=4 with all masks, n=5 with <=1 cell + whole',
                  'balanced': 'K,M in {2,3,4} (R=1), {2,3} (R=2); pairs of cells for <=9 rows',
+                 'sequences': 'n in 2..6 with and without a NaN cell', 'scales': 'n in 1..5, P in {2,3}, 6 combinations',
                  'fills': '3 float fills + integer fill; second poisson prior',
                  'layout/dtype variants': 'F order on every case of the labeling and balanced blocks'},
 }
@@ -117,6 +141,9 @@ KNOWN_SKIP = 'not_explored_because_known'
 INT_FOLD_VALUES = [7, 3, 5, 1, 9, 4, 8, 2, 6, 0]      # value order != code order
 STR_FOLD_VALUES = ['fq', 'fb', 'fz', 'fa', 'fm', 'fc']
 FLT_FOLD_VALUES = [1.2, 1.1, 2.1, 1.3, 2.2, 0.5]      # distinct floats sharing an integer part (session.run codes)
+BIG_INT = 100000                                      # six-digit ints 100000+k
+BIG_FLT = 1696300000.0                                # time-stamp like floats 1696300000.0 + 0.5*k (close together)
+SCALES = (1e-5, 1e4)
 
 
 # ----------------------------------------------------------------------------- generators
@@ -124,6 +151,10 @@ _NAMING_CACHE = {}
 
 
 def _naming(k, tag):
+    if tag == 'big6':        # descending, so that first appearance != sorted order
+        return [BIG_INT + (k - 1 - i) for i in range(k)]
+    if tag == 'bigf':
+        return [BIG_FLT + 0.5 * (k - 1 - i) for i in range(k)]
     if (k, tag) not in _NAMING_CACHE:
         for t, names in combi.namings(k):
             _NAMING_CACHE[(k, t)] = list(names)
@@ -157,11 +188,12 @@ def _structure(case):
         fold = d['fold']
         if fold is None:
             folds = None
-        elif fold == 'occ':
+        elif fold in ('occ', 'occbig', 'occflt'):
             seen = {}
             folds = []
             for g in part:
-                folds.append(INT_FOLD_VALUES[seen.get(g, 0)])
+                v = INT_FOLD_VALUES[seen.get(g, 0)]
+                folds.append(v if fold == 'occ' else (BIG_INT + v if fold == 'occbig' else BIG_FLT + 0.5 * v))
                 seen[g] = seen.get(g, 0) + 1
         elif fold == 'alt':
             folds = [STR_FOLD_VALUES[i % 2] for i in range(n)]
@@ -174,7 +206,9 @@ def _structure(case):
     if d['type'] == 'bal':
         K, M, R = d['K'], d['M'], d['R']
         names = _naming(K, d['naming'])
-        fvals = {'int': INT_FOLD_VALUES, 'str': STR_FOLD_VALUES, 'flt': FLT_FOLD_VALUES}[d['foldnames']]
+        fvals = {'int': INT_FOLD_VALUES, 'str': STR_FOLD_VALUES, 'flt': FLT_FOLD_VALUES,
+                 'big6': [BIG_INT + v for v in INT_FOLD_VALUES],
+                 'bigf': [BIG_FLT + 0.5 * v for v in INT_FOLD_VALUES]}[d['foldnames']]
         cells = [(c, f) for f in range(M) for c in range(K) for _ in range(R)]
         n = len(cells)
         order = d['order']
@@ -294,6 +328,72 @@ def _oob_class(case):
     return case['prec'] == 'spd' and bool(case['mask']) and case['method'] in ('mahalanobis', 'crossnobis')
 
 
+# ----------------------------------------------------------------------------- scale-relative comparison
+def _unit(case):
+    """natural magnitude of the dissimilarities for data multiplied by case['scale'] (default 1): the
+    euclidean / mahalanobis / crossnobis kernels are quadratic in the data, correlation is invariant,
+    the poisson kernel is at most quadratic for small rates.  Tolerances are relative to
+    max(unit, |a|, |b|); for unscaled data this is the plain rule of mc.util.close."""
+    c = float(case.get('scale') or 1.0)
+    if case['method'] == 'correlation':
+        return 1.0
+    if case['method'] in ('poisson', 'poisson_cv'):
+        return min(1.0, c * c)
+    return c * c
+
+
+def _close(a, b, tol, unit=1.0):
+    a = float(a)
+    b = float(b)
+    if a != a or b != b:
+        return a != a and b != b
+    if math.isinf(a) or math.isinf(b):
+        return a == b
+    return abs(a - b) <= tol * max(unit, abs(a), abs(b))
+
+
+def _reldev(a, b, unit=1.0):
+    a = float(a)
+    b = float(b)
+    if a != a or b != b or math.isinf(a) or math.isinf(b):
+        return 0.0
+    return abs(a - b) / max(unit, abs(a), abs(b))
+
+
+# ----------------------------------------------------------------------------- caller-owned arguments
+def _snap(v):
+    """exact, cheap snapshot of an argument: dtype, shape, strides and bytes of arrays, key order of
+    dicts, container and element types of sequences"""
+    if isinstance(v, np.ndarray):
+        return ('A', v.dtype.str, v.shape, v.strides, v.tobytes())
+    if isinstance(v, dict):
+        return ('D', tuple((k, _snap(x)) for k, x in v.items()))
+    if isinstance(v, (list, tuple)):
+        return (type(v).__name__, tuple(_snap(x) for x in v))
+    return (type(v).__name__, repr(v))
+
+
+def _snap_ds(ds):
+    return {'measurements': (id(ds.measurements), _snap(ds.measurements)),
+            'descriptors': _snap(ds.descriptors), 'obs_descriptors': _snap(ds.obs_descriptors),
+            'channel_descriptors': _snap(ds.channel_descriptors), 'shape': (ds.n_obs, ds.n_channel)}
+
+
+def _args_unchanged(ctx, op, case, ds, before, arrays=()):
+    """the caller's Dataset and ndarray arguments must be bit-identical after a library call;
+    arrays: (name, array, snapshot before)"""
+    after = _snap_ds(ds)
+    for key in before:
+        if before[key] != after[key]:
+            ctx.fail('%s|any|modifies-argument:dataset.%s' % (op, key), case,
+                     'the caller\'s dataset.%s changed during the call: before %.300r, after %.300r' % (
+                         key, before[key], after[key]))
+    for name, arr, snap in arrays:
+        if arr is not None and _snap(arr) != snap:
+            ctx.fail('%s|any|modifies-argument:%s' % (op, name), case,
+                     'ndarray argument %s changed during the call: now %r' % (name, arr.tolist()))
+
+
 # ----------------------------------------------------------------------------- library calls
 def _fail_exc(ctx, sigprefix, case, e):
     tb = sys.exc_info()[2]
@@ -353,6 +453,8 @@ def _lib_full(ctx, case, X, labels, folds, prec, cls, op='calc_rdm_unbalanced'):
         ds = _dataset(X, labels, folds, extra)
         desc = 'cond' if labels is not None else None
         cvd = 'fold' if folds is not None else None
+        before = _snap_ds(ds)
+        nsnap = None if prec is None else _snap(prec)
         if op == 'calc_rdm_unbalanced':
             rd = calc_rdm_unbalanced(ds, method=case['method'], descriptor=desc, noise=prec, cv_descriptor=cvd,
                                      prior_lambda=prior[0], prior_weight=prior[1], weighting=case['weighting'])
@@ -361,6 +463,7 @@ def _lib_full(ctx, case, X, labels, folds, prec, cls, op='calc_rdm_unbalanced'):
             rd = calc_rdm(ds, method=case['method'], descriptor=desc, noise=prec, cv_descriptor=cvd,
                           prior_lambda=prior[0], prior_weight=prior[1])
             name = 'cond'
+        _args_unchanged(ctx, op, case, ds, before, [('noise', prec, nsnap)])
         vec = np.asarray(rd.dissimilarities, dtype=float)
         if vec.ndim != 2 or vec.shape[0] != 1:
             ctx.fail('%s|any|shape' % op, case, 'dissimilarities have shape %r' % (vec.shape,))
@@ -422,6 +525,7 @@ def _judge(ctx, case, got, want, cls):
                  'returned labels %r, first appearance gives %r' % (labs, order))
         ok = False
     nan_self = [i for i, s in enumerate(want['self']) if s is None or s != s]   # no valid / no defined self-product
+    unit = _unit(case)
     judged = finite = 0
     for (a, b), w in want['dist'].items():
         g = vec[_vec_index(pos[a], pos[b], k)]
@@ -431,8 +535,8 @@ def _judge(ctx, case, got, want, cls):
         judged += 1
         if w == w:
             finite += 1
-        ctx.dev('full/' + case['method'], reldev(g, w) if (g == g) == (w == w) else 0.0)
-        if not close(g, w, TOL):
+        ctx.dev('full/' + case['method'], _reldev(g, w, unit) if (g == g) == (w == w) else 0.0)
+        if not _close(g, w, TOL, unit):
             if g != g and w == w and any(c not in (a, b) for c in nan_self) and cls != 'weighting=equal,no-fold':
                 ctx.fail('calc_rdm_unbalanced|condition-without-valid-self-product|nan-poisoning', case,
                          'pair (%r,%r): got NaN, pairwise definition gives %.12g; condition(s) %r have no valid '
@@ -466,21 +570,40 @@ def _helper(ctx, case, X, rows, lab_eff, folds, want, prec, crossval, full):
     groups = want['groups']
     k = len(groups)
     precl = None if prec is None else prec.tolist()
+    unit = _unit(case)
     dss, cvs = [], []
     hval = {}
+    noise_h = None if prec is None else prec.copy()        # one caller-owned array for all helper calls
     try:
         for g in groups:
             dss.append(Dataset(X[g]))
             cvs.append(np.array([codes[i] for i in g], dtype=np.int64))
+        # caller-owned arguments: raw bytes after every call, complete snapshots once after all calls
+        ds_snap = [_snap_ds(d) for d in dss]
+        cv_snap = [_snap(c) for c in cvs]
+        n_snap = None if noise_h is None else _snap(noise_h)
+        ds_bytes = [d.measurements.tobytes() for d in dss]
+        cv_bytes = [c.tobytes() for c in cvs]
+        n_bytes = None if noise_h is None else noise_h.tobytes()
         for a in range(k):
             for b in range(a, k):
                 ca, cb = cvs[a], cvs[b]
+                cb_bytes = cv_bytes[b]
                 if a == b and not crossval:
                     cb = cb + n          # every ordered pair incl. (i, i) is admissible
+                    cb_bytes = cb.tobytes()
                 hv, hw = calc_one_similarity(dss[a], dss[b], ca, cb, method=method,
-                                             noise=None if prec is None else prec.copy(), weighting=weighting,
+                                             noise=noise_h, weighting=weighting,
                                              prior_lambda=prior[0], prior_weight=prior[1])
                 ctx.count('helper_calls')
+                for nm, now, was in (('data_i.measurements', dss[a].measurements, ds_bytes[a]),
+                                     ('data_j.measurements', dss[b].measurements, ds_bytes[b]),
+                                     ('cv_desc_i', ca, cv_bytes[a]), ('cv_desc_j', cb, cb_bytes),
+                                     ('noise', noise_h, n_bytes)):
+                    if now is not None and now.tobytes() != was:
+                        ctx.fail('calc_one_similarity|any|modifies-argument:%s' % nm, dict(case, pair=[a, b]),
+                                 'argument %s changed during the call for conditions #%d,#%d: now %r' % (
+                                     nm, a, b, now.tolist()))
                 ra = [rows[i] for i in groups[a]]
                 rb = [rows[i] for i in groups[b]]
                 if crossval:
@@ -492,13 +615,16 @@ def _helper(ctx, case, X, rows, lab_eff, folds, want, prec, crossval, full):
                     ctx.exclude('%s undefined for an observation pair (constant vector / < 2 valid channels)' % method)
                     continue
                 hval[(a, b)] = hv
-                ctx.dev('helper/' + method, reldev(hv, wv) if (hv == hv) == (wv == wv) else 0.0)
-                if not close(hv, wv, TOL):
+                ctx.dev('helper/' + method, _reldev(hv, wv, unit) if (hv == hv) == (wv == wv) else 0.0)
+                if not _close(hv, wv, TOL, unit):
                     ctx.fail('calc_one_similarity|%s|value-mismatch' % hcls, dict(case, pair=[a, b]),
                              'conditions #%d,#%d: helper %.12g, pairwise definition %.12g' % (a, b, hv, wv))
-                elif not close(hw, ww, TOL):
+                elif not _close(hw, ww, TOL):
                     ctx.fail('calc_one_similarity|%s|weight-mismatch' % hcls, dict(case, pair=[a, b]),
                              'conditions #%d,#%d: helper weight %.12g, definition %.12g' % (a, b, hw, ww))
+        for i, d in enumerate(dss):
+            _args_unchanged(ctx, 'calc_one_similarity', case, d, ds_snap[i],
+                            [('cv_desc', cvs[i], cv_snap[i])] + ([('noise', noise_h, n_snap)] if i == 0 else []))
     except _PASS:
         raise
     except Exception as e:  # noqa: BLE001
@@ -511,7 +637,7 @@ def _helper(ctx, case, X, rows, lab_eff, folds, want, prec, crossval, full):
             if (a, a) in hval and (b, b) in hval and (a, b) in hval:
                 comb = hval[(a, a)] + hval[(b, b)] - 2.0 * hval[(a, b)]
                 g = full[_vec_index(a, b, k)]
-                if not close(g, comb, 1e-8):
+                if not _close(g, comb, 1e-8, unit):
                     ctx.fail('calc_one_similarity|%s|differs-from-full-computation' % hcls, dict(case, pair=[a, b]),
                              'conditions #%d,#%d: full computation %.12g, h(a,a)+h(b,b)-2h(a,b) = %.12g' % (
                                  a, b, g, comb))
@@ -569,27 +695,35 @@ def _vs_calc_rdm(ctx, case, X, labels, folds, prec, got, kind, defined):
         ctx.fail('calc_rdm_unbalanced==calc_rdm|%s|labels' % cls, sub, 'calc_rdm returns labels %r, unbalanced %r' % (
             blabs, labs))
         return
+    unit = _unit(case)
+    floor = 0.0
+    if case['method'] in ('poisson', 'poisson_cv'):
+        # calc_rdm forms u.log(u) + v.log(v) - u.log(v) - v.log(u) from terms of size |u log u|: its rounding
+        # error does not shrink with the dissimilarity.  64 ulp of the largest term is the floor of the comparison.
+        prior = case.get('prior') or [1, 0.1]
+        rates = [(v + prior[0] * prior[1]) / (1.0 + prior[1]) for v in X.ravel().tolist() if v == v]
+        floor = 64 * 2.220446049250313e-16 * max([abs(u * math.log(u)) for u in rates if u > 0] or [0.0])
     for a in range(k):
         for b in range(a + 1, k):
             if not defined[_vec_index(a, b, k)]:
                 continue
             g = vec[_vec_index(a, b, k)]
             w = bvec[_vec_index(pos[a], pos[b], k)]
-            ctx.dev('calc_rdm/' + case['method'], reldev(g, w) if (g == g) == (w == w) else 0.0)
-            if not close(g, w, TOL):
+            ctx.dev('calc_rdm/' + case['method'], _reldev(g, w, unit) if (g == g) == (w == w) else 0.0)
+            if not _close(g, w, TOL, unit) and not (g == g and w == w and abs(g - w) <= floor):
                 ctx.fail('calc_rdm_unbalanced==calc_rdm|%s|value-mismatch' % cls, sub,
                          'pair (%r,%r): calc_rdm_unbalanced %.12g (agrees with the pairwise definition), '
                          'calc_rdm %.12g' % (labs[a], labs[b], g, w))
                 return
 
 
-def _same_result(a, b, tol, defined=None):
+def _same_result(a, b, tol, defined=None, unit=1.0):
     """same labels, same values (NaN == NaN); `defined`: flags per entry, undefined entries are not compared"""
     la, va = a
     lb, vb = b
     if la != lb or len(va) != len(vb):
         return False
-    return all(close(x, y, tol) for i, (x, y) in enumerate(zip(va, vb)) if defined is None or defined[i])
+    return all(_close(x, y, tol, unit) for i, (x, y) in enumerate(zip(va, vb)) if defined is None or defined[i])
 
 
 def _defined(want):
@@ -610,7 +744,87 @@ def run_case(case, ctx):
     if case.get('probe') and not IN_CHILD:
         _run_in_child([case], ctx)
         return
+    if kind == 'seq':
+        _run_seq(case, ctx)
+        return
     _run_structured(case, ctx)
+
+
+# ----------------------------------------------------------------------------- sequences of calls on one object
+# (op, method, weighting, fold descriptor given, condition descriptor, precision)
+SEQ_MENU = [
+    ('calc_rdm_unbalanced', 'euclidean', 'number', False, 'cond', 'none'),
+    ('calc_rdm_unbalanced', 'euclidean', 'equal', True, None, 'none'),
+    ('calc_rdm_unbalanced', 'crossnobis', 'number', False, 'cond', 'none'),
+    ('calc_rdm_unbalanced', 'crossnobis', 'equal', True, 'cond', 'spd'),
+    ('calc_rdm_unbalanced', 'poisson_cv', 'number', False, None, 'none'),
+    ('calc_rdm_unbalanced', 'correlation', 'number', False, 'cond', 'none'),
+    ('calc_rdm_unbalanced', 'mahalanobis', 'number', False, None, 'spd'),
+    ('calc_rdm_unbalanced', 'poisson', 'number', True, 'cond', 'none'),
+    ('calc_rdm', 'euclidean', None, False, None, 'none'),
+    ('calc_rdm', 'crossnobis', None, True, 'cond', 'none'),
+]
+_SEQ_FRESH = {}
+
+
+def _seq_menu(has_nan):
+    """indices of the menu entries usable for the data (precision + NaN is the known over-reading class)"""
+    return [i for i, e in enumerate(SEQ_MENU) if not (has_nan and e[5] == 'spd' and e[0] == 'calc_rdm_unbalanced')]
+
+
+def _seq_call(ctx, case, ds, prec, entry):
+    """one menu call on the given (possibly already used) Dataset / precision objects -> hashable outcome;
+    the caller-owned arguments must come back bit-identical"""
+    from rsatoolbox.rdm import calc_rdm, calc_rdm_unbalanced
+    op, method, weighting, cv, desc, pk = entry
+    noise = prec if pk == 'spd' else None
+    before = _snap_ds(ds)
+    nsnap = None if noise is None else _snap(noise)
+    try:
+        if op == 'calc_rdm_unbalanced':
+            rd = calc_rdm_unbalanced(ds, method=method, descriptor=desc, noise=noise,
+                                     cv_descriptor='fold' if cv else None, weighting=weighting)
+        else:
+            rd = calc_rdm(ds, method=method, descriptor=desc, noise=noise, cv_descriptor='fold' if cv else None)
+        out = ('ok', fingerprint({'d': np.asarray(rd.dissimilarities), 'pd': rd.pattern_descriptors,
+                                  'rd': rd.rdm_descriptors, 'desc': rd.descriptors,
+                                  'measure': rd.dissimilarity_measure}),
+               np.asarray(rd.dissimilarities).tolist(), repr(rd.pattern_descriptors))
+    except _PASS:
+        raise
+    except Exception as e:  # noqa: BLE001
+        out = ('raises', type(e).__name__, None, None)
+    _args_unchanged(ctx, op, case, ds, before, [('noise', noise, nsnap)])
+    return out
+
+
+def _run_seq(case, ctx):
+    """call menu entry `first`, then entry `second`, on ONE Dataset object (and one precision array): the
+    second result must be what the same call returns on a fresh Dataset"""
+    labels, folds, n = _structure(case)
+    n_ch = case['P']
+    base = _data(ctx.seed, n, n_ch, case['fill'], True)
+    rows = [list(r) for r in base]
+    for c in case['mask']:
+        rows[c // n_ch][c % n_ch] = ref.NAN
+    X = np.array(rows, dtype=float)
+    first, second = SEQ_MENU[case['first']], SEQ_MENU[case['second']]
+    key = (ctx.seed, json.dumps(_runner.jsonable(dict(case, first=None))), case['second'])
+    fresh = _SEQ_FRESH.get(key)
+    if fresh is None:
+        if len(_SEQ_FRESH) > 4096:
+            _SEQ_FRESH.clear()
+        fresh = _SEQ_FRESH[key] = _seq_call(ctx, case, _dataset(X.copy(), labels, folds), _prec(ctx.seed, n_ch), second)
+    ds = _dataset(X.copy(), labels, folds)
+    prec = _prec(ctx.seed, n_ch)
+    _seq_call(ctx, case, ds, prec, first)
+    got = _seq_call(ctx, case, ds, prec, second)
+    ctx.case(case, nontrivial=fresh[0] == 'ok')
+    ctx.outcome(fresh[1])
+    if got[:2] != fresh[:2]:
+        ctx.fail('%s|sequence|depends-on-earlier-call' % second[0], case,
+                 'after %r on the same Dataset object, %r gives %r %r; on a fresh Dataset it gives %r %r' % (
+                     first, second, got[2] or got[:2], got[3], fresh[2] or fresh[:2], fresh[3]))
 
 
 def _run_structured(case, ctx):
@@ -631,6 +845,9 @@ def _run_structured(case, ctx):
     cls = _cls(case, crossval)
     prior = case.get('prior') or [1, 0.1]
     base = _data(ctx.seed, n, n_ch, case['fill'], method in ('poisson', 'poisson_cv'))
+    scale = float(case.get('scale') or 1.0)
+    if scale != 1.0:
+        base = [[v * scale for v in r] for r in base]
     rows = [list(r) for r in base]
     for c in mask:
         rows[c // n_ch][c % n_ch] = ref.NAN
@@ -663,7 +880,7 @@ def _run_structured(case, ctx):
         sub = dict(case, variant=v)
         gv = _lib_full(ctx, sub, Xv, labels, folds, pv, cls)
         ctx.case(sub, nontrivial=finite > 0)
-        if gv is not None and not _same_result(got, gv, TOL_INV):
+        if gv is not None and not _same_result(got, gv, TOL_INV, None, _unit(case)):
             what = 'layout=F|differs-from-C-order' if v == 'F' else 'dtype=int64|differs-from-float64'
             ctx.fail('calc_rdm_unbalanced|%s' % what, sub, 'float64 C-ordered input gives %r %r, variant %s gives %r %r' % (
                 got[0], got[1].tolist(), v, gv[0], gv[1].tolist()))
@@ -689,7 +906,7 @@ def _run_structured(case, ctx):
         gd = _lib_full(ctx, sub, Xd, labels, folds, pd, cls)
         ctx.case(sub, nontrivial=finite > 0)
         ctx.count('channel_deleted_comparisons')
-        if gd is not None and not _same_result(got, gd, TOL, _defined(want)):
+        if gd is not None and not _same_result(got, gd, TOL, _defined(want), _unit(case)):
             ctx.fail('calc_rdm_unbalanced|channel-missing-everywhere|differs-from-channel-deleted', sub,
                      'channel %d NaN in every observation gives %r, the data set without that channel gives %r' % (
                          ch, got[1].tolist(), gd[1].tolist()))
@@ -812,6 +1029,19 @@ def shards(tier, seed):
         out.append({'kind': 'extra', 'ns': [4], 'P': n_ch})
         if th:
             out.append({'kind': 'extra', 'ns': [5], 'P': n_ch})
+    # ordered pairs of calls on one Dataset object; data scales and large / close-together descriptor values
+    for n in ((2, 3, 4, 5, 6) if th else (2, 3, 4, 5)):
+        step = 1 if n <= 4 else (13 if n == 5 else 29)
+        for p in range(0, combi.BELL[n], step) if n >= 4 else [None]:
+            out.append({'kind': 'seq', 'ns': [n], 'P': 3, 'parts': None if p is None else [p, min(combi.BELL[n], p + step)]})
+    for n_ch in ((2, 3) if th else (3,)):
+        out.append({'kind': 'scale', 'ns': [1, 2, 3], 'P': n_ch, 'parts': None})
+        for p in range(0, combi.BELL[4], 3):
+            out.append({'kind': 'scale', 'ns': [4], 'P': n_ch, 'parts': [p, min(combi.BELL[4], p + 3)]})
+        if th:
+            for p in range(0, combi.BELL[5], 4):
+                out.append({'kind': 'scale', 'ns': [5], 'P': n_ch, 'parts': [p, min(combi.BELL[5], p + 4)]})
+        out.append({'kind': 'scalebal', 'P': n_ch})
     # every labeling x every fold partition
     for n_ch in (2, 3):
         out.append({'kind': 'foldpart', 'ns': [2, 3], 'P': n_ch, 'parts': None})
@@ -915,6 +1145,60 @@ def run_shard(shard, ctx):
                                                   'variants': _variants(fill, bool(mask), idx, ctx.tier),
                                                   'design': {'type': 'lab', 'part': part, 'naming': 'index',
                                                              'fold': fold, 'extra': extra}}, ctx)
+    elif kind == 'seq':
+        for n in shard['ns']:
+            parts = _partitions(n)
+            lo, hi = shard['parts'] or [0, len(parts)]
+            for pidx in range(lo, hi):
+                for mask in ([], [0]) if (n <= 4 or th) else ([],):
+                    menu = _seq_menu(bool(mask))
+                    for first in menu:
+                        for second in menu:
+                            run_case({'kind': 'seq', 'P': n_ch, 'fill': 0, 'mask': mask, 'first': first,
+                                      'second': second,
+                                      'design': {'type': 'lab', 'part': parts[pidx], 'naming': 'desc',
+                                                 'fold': 'occ'}}, ctx)
+    elif kind == 'scale':
+        # (label naming, fold values, data scale): the two data scales with small descriptors, six-digit int
+        # and time-stamp like float descriptors at scale 1 and combined with a data scale
+        combos = [('desc', 'occ', SCALES[0]), ('desc', 'occ', SCALES[1]), ('big6', 'occbig', 1.0),
+                  ('bigf', 'occflt', 1.0), ('bigf', 'occflt', SCALES[1])] + (
+                      [('big6', 'occbig', SCALES[0])] if th else [])
+        for n in shard['ns']:
+            parts = _partitions(n)
+            lo, hi = shard['parts'] or [0, len(parts)]
+            masks = [[], [0], [n * n_ch - 1], [o * n_ch for o in range(n)], list(range(n_ch))]
+            masks = [m for i, m in enumerate(masks) if m not in masks[:i]]
+            for pidx in range(lo, hi):
+                idx = 0
+                for mask in masks:
+                    has_nan = bool(mask)
+                    for naming, foldtag, scale in combos:
+                        for fold in (None, foldtag):
+                            for method, prec in _configs('occ' if fold else None, has_nan, ctx.tier):
+                                for weighting in W2:
+                                    idx += 1
+                                    run_case({'kind': 'lab', 'P': n_ch, 'fill': 0, 'mask': mask, 'method': method,
+                                              'weighting': weighting, 'prec': prec, 'scale': scale,
+                                              'variants': _variants(0, has_nan, idx, ctx.tier),
+                                              'design': {'type': 'lab', 'part': parts[pidx], 'naming': naming,
+                                                         'fold': fold}}, ctx)
+    elif kind == 'scalebal':
+        idx = 0
+        for K, M, R in ((2, 2, 1), (3, 2, 1), (2, 3, 1), (3, 3, 1), (2, 2, 2)):
+            for mask in ([], [0]):
+                for naming, foldnames, scale in (('desc', 'int', SCALES[0]), ('desc', 'int', SCALES[1]),
+                                                 ('big6', 'big6', 1.0), ('bigf', 'bigf', 1.0),
+                                                 ('bigf', 'bigf', SCALES[1]), ('big6', 'big6', SCALES[0])):
+                    for method, prec in (('crossnobis', 'none'), ('crossnobis', 'spd'), ('poisson_cv', 'none'),
+                                         ('euclidean', 'none'), ('correlation', 'none')):
+                        for weighting in W2:
+                            idx += 1
+                            run_case({'kind': 'bal', 'P': n_ch, 'fill': 0, 'mask': mask, 'method': method,
+                                      'weighting': weighting, 'prec': prec, 'scale': scale,
+                                      'variants': _variants(0, bool(mask), idx, ctx.tier),
+                                      'design': {'type': 'bal', 'K': K, 'M': M, 'R': R, 'order': 'mix',
+                                                 'naming': naming, 'foldnames': foldnames}}, ctx)
     elif kind == 'foldpart':
         for n in shard['ns']:
             parts = _partitions(n)
